@@ -176,17 +176,43 @@ pub struct Star {
     pub pairs: Vec<(u32, u32)>,
 }
 
-pub fn star(klen: usize, blen: usize, tier: Tier, expensive_key: bool) -> Star {
+#[derive(Clone, Copy, PartialEq, Eq, Debug, Hash)]
+pub enum Plan {
+    /// quick: T x F ∪ F x T ∪ S x S;  thorough: S x F ∪ F x S ∪ M x M
+    Full,
+    /// quick: T x M ∪ M x T;  thorough: S x M ∪ M x S
+    Medium,
+    /// quick: T x S ∪ S x T;  thorough: S x S ∪ T x M ∪ M x T
+    Small,
+    /// T x T (both tiers) – for secondary key lengths; keys additionally get distinct-byte strings
+    Tiny,
+}
+
+pub fn star(klen: usize, blen: usize, tier: Tier, plan: Plan) -> Star {
     const KS: u64 = 1; // stream ids
     const BS_: u64 = 2;
-    // quick:    T_key x F_blk  ∪  F_key x T_blk  ∪  S_key x S_blk
-    // thorough: S_key x F_blk  ∪  F_key x S_blk  ∪  M_key x M_blk
-    let (small_k, small_b, mid_k, mid_b) = match tier {
-        Tier::Quick => (t_set(klen, KS), t_set(blen, BS_), s_set(klen, KS), s_set(blen, BS_)),
-        Tier::Thorough => (s_set(klen, KS), s_set(blen, BS_), m_set(klen, KS), m_set(blen, BS_)),
+    let t = |n, st| t_set(n, st);
+    let s = |n, st| s_set(n, st);
+    let m = |n, st| m_set(n, st);
+    let f = |n, st| f_set(n, st, tier);
+    // arms: list of (key set, block set)
+    let arms: Vec<(Vec<Vec<u8>>, Vec<Vec<u8>>)> = match (plan, tier) {
+        (Plan::Full, Tier::Quick) => vec![(t(klen, KS), f(blen, BS_)), (f(klen, KS), t(blen, BS_)), (s(klen, KS), s(blen, BS_))],
+        (Plan::Full, Tier::Thorough) => vec![(s(klen, KS), f(blen, BS_)), (f(klen, KS), s(blen, BS_)), (m(klen, KS), m(blen, BS_))],
+        (Plan::Medium, Tier::Quick) => vec![(t(klen, KS), m(blen, BS_)), (m(klen, KS), t(blen, BS_))],
+        (Plan::Medium, Tier::Thorough) => vec![(s(klen, KS), m(blen, BS_)), (m(klen, KS), s(blen, BS_))],
+        (Plan::Small, Tier::Quick) => vec![(t(klen, KS), s(blen, BS_)), (s(klen, KS), t(blen, BS_))],
+        (Plan::Small, Tier::Thorough) => {
+            vec![(s(klen, KS), s(blen, BS_)), (t(klen, KS), m(blen, BS_)), (m(klen, KS), t(blen, BS_))]
+        }
+        (Plan::Tiny, _) => {
+            let mut k = t(klen, KS);
+            for v in 0..3 {
+                k.push(distinct_bytes(klen, v));
+            }
+            vec![(k, t(blen, BS_))]
+        }
     };
-    let full_k = if expensive_key { m_set(klen, KS) } else { f_set(klen, KS, tier) };
-    let full_b = f_set(blen, BS_, tier);
     let mut keys: Vec<Vec<u8>> = Vec::new();
     let mut blocks: Vec<Vec<u8>> = Vec::new();
     let mut kidx = std::collections::HashMap::new();
@@ -202,7 +228,7 @@ pub fn star(klen: usize, blen: usize, tier: Tier, expensive_key: bool) -> Star {
     }
     let mut pairs = Vec::new();
     let mut seen = std::collections::HashSet::new();
-    for (ks, bs) in [(&small_k, &full_b), (&full_k, &small_b), (&mid_k, &mid_b)] {
+    for (ks, bs) in &arms {
         let ki: Vec<u32> = ks.iter().map(|k| intern(k, &mut keys, &mut kidx)).collect();
         let bi: Vec<u32> = bs.iter().map(|b| intern(b, &mut blocks, &mut bidx)).collect();
         for &k in &ki {
@@ -216,6 +242,24 @@ pub fn star(klen: usize, blen: usize, tier: Tier, expensive_key: bool) -> Star {
     // group by key so that one key set-up serves all its blocks (order stays deterministic)
     pairs.sort_by_key(|&(k, _)| k);
     Star { keys, blocks, pairs }
+}
+
+impl Star {
+    /// (key index, range into `pairs`) for every key, in order.
+    pub fn groups(&self) -> Vec<(u32, std::ops::Range<usize>)> {
+        let mut g = Vec::new();
+        let mut i = 0;
+        while i < self.pairs.len() {
+            let k = self.pairs[i].0;
+            let mut j = i;
+            while j < self.pairs.len() && self.pairs[j].0 == k {
+                j += 1;
+            }
+            g.push((k, i..j));
+            i = j;
+        }
+        g
+    }
 }
 
 pub fn hex(b: &[u8]) -> String {
